@@ -340,6 +340,25 @@ pub fn run(ctx: &mut Ctx) {
     for id in ALL_CODECS {
         let lens = gen::long_lens(ctx.thorough());
         ctx.forall_lens(&format!("histories_long/{}", id.name()), &lens, |n| (gen::owned_spec_n(id, n), vec(op(id), 1..=5)).prop_map(move |(start, ops)| Case { codec: id, start, ops }), dispatch);
+        // long arguments into short and long targets
+        ctx.forall_lens(
+            &format!("histories_long_args/{}", id.name()),
+            &lens,
+            |n| {
+                let long_arg = gen::seq_spec_n(id, n).prop_map(Arg::Other);
+                let lop = prop_oneof![
+                    long_arg.clone().prop_map(Op::Append),
+                    long_arg.clone().prop_map(Op::Prepend),
+                    (any::<u16>(), long_arg).prop_map(|(p, a)| Op::Insert(p, a)),
+                ];
+                (gen::owned_spec(id, 70), vec(op(id), 0..=2), lop, vec(op(id), 0..=2)).prop_map(move |(start, mut pre, l, post)| {
+                    pre.push(l);
+                    pre.extend(post);
+                    Case { codec: id, start, ops: pre }
+                })
+            },
+            dispatch,
+        );
     }
     // bounded-exhaustive: all histories up to the depth over the grid, from 5 starting lengths
     let depth = 3;
